@@ -311,6 +311,7 @@ static int remoteSync(MPT_INTERFACE(output) *out, int timeout)
 			return MPT_ERROR(BadValue);
 		}
 		if ((ans = mpt_command_get(&od->con._wait, ansid))) {
+			int (*reply)(void *, void *) = ans->cmd;
 			MPT_STRUCT(message) msg;
 			
 			msg.base = data + idlen;
@@ -318,7 +319,9 @@ static int remoteSync(MPT_INTERFACE(output) *out, int timeout)
 			msg.cont = 0;
 			msg.clen = 0;
 			
-			if (ans->cmd(ans->arg, &msg) < 0) {
+			/* request is answered: waiting command is consumed */
+			ans->cmd = 0;
+			if (reply(ans->arg, &msg) < 0) {
 				return 0;
 			}
 			continue;
